@@ -134,6 +134,19 @@ def task(job):
         before = [fingerprint(c) for c in callees]
         out = dict(status="ok", fails=[], evaluated=0, exact=0, wrapped=0, unsupported=0, py_raises=0)
         try:
+            # earlier uses of the SAME callee objects (defs= of other callers, oraclize): the
+            # callee must still behave as a fresh one afterwards
+            for pre in job.get("warmup", []):
+                try:
+                    if pre[0] == "oraclize":
+                        from qlasskit.algorithms.qalgorithm import oraclize as _orz
+                        _orz(callees[0], pre[1])
+                    else:
+                        qlassf(pre[1], defs=callees, to_compile=False, bool_optimizer=opt)
+                except progs._Timeout:
+                    raise
+                except BaseException:
+                    pass
             if job.get("oraclize") is not None:
                 from qlasskit.algorithms.qalgorithm import oraclize
                 qf = oraclize(callees[0], job["oraclize"])
@@ -265,6 +278,16 @@ def run(tier, seed):
     for cs, src in pairs:
         for opt in ("default", "fast"):
             jobs.append(dict(callees=cs, src=src, fname="test", optimizer=opt))
+    # the same callee objects used by an earlier caller / oraclize, then by this caller
+    reuse = []
+    for cs, src in pairs[:len(CALLERS)]:
+        if cs:
+            other = next((s2 for c2, s2 in CALLERS if c2 == cs and s2 != src), src)
+            reuse.append(dict(callees=cs, src=src, fname="test", optimizer="default", warmup=[("caller", other), ("caller", src)]))
+    for nm, el in (("inc", 2), ("gt1", True), ("neg", False)):
+        caller = next(s2 for c2, s2 in CALLERS if c2 == [nm])
+        reuse.append(dict(callees=[nm], src=caller, fname="test", optimizer="default", warmup=[("oraclize", el)]))
+    jobs += reuse
     # equality oracles f(x) == element for every return type
     for nm, el in (("inc", 2), ("inc", 0), ("gt1", True), ("neg", False), ("wide", 7), ("addp", 1)):
         arg = CALLEES[nm].split("(")[1].split(")")[0].split(":", 1)[1].split(",")[0].strip() if nm != "addp" else None
